@@ -92,6 +92,16 @@ FAST_ALT = ('ecdh-sha2-nistp256', 'curve25519-sha256')
 def sweep_cfg(kex, swap_hostkeys=False):
     alt = FAST_ALT[0] if kex != FAST_ALT[0] else FAST_ALT[1]
     keys = [key('ecdsa-sha2-nistp256'), key('ssh-ed25519')]
+    if W.family_of(kex) == 'rsa':
+        # RSA kex runs with an RSA host key, so that K_S and K_T both carry mpints an on-path party can re-encode
+        keys = [key('ssh-rsa'), key('ssh-ed25519')]
+        return dict(
+            c=dict(kex=[kex, alt], enc=['aes128-ctr', 'aes256-ctr', 'aes128-gcm@openssh.com'],
+                   mac=['hmac-sha2-256', 'hmac-sha1'], cmp=['none', 'zlib@openssh.com'],
+                   hostkey=['rsa-sha2-256', 'ssh-ed25519', 'rsa-sha2-512']),
+            s=dict(kex=[alt, kex], enc=['aes128-gcm@openssh.com', 'aes128-ctr'], mac=['hmac-sha1', 'hmac-sha2-256'],
+                   cmp=['zlib@openssh.com', 'none']),
+            keys=keys, trusted=[k.convert_to_public() for k in keys])
     return dict(
         c=dict(kex=[kex, alt], enc=['aes128-ctr', 'aes256-ctr', 'aes128-gcm@openssh.com'],
                mac=['hmac-sha2-256', 'hmac-sha1'], cmp=['none', 'zlib@openssh.com'],
@@ -154,6 +164,7 @@ def kexinit_edits(side, thorough):
 
 MP_OPS = ('add1', 'sub1', 'one', 'zero', 'half', 'dbl', 'pm1', 'p', 'big', 'neg', 'lead0')
 STR_OPS = ('flip0', 'fliplast', 'trunc', 'append', 'empty')
+BLOB_OPS = ('blob_lead0_1', 'blob_lead0_2', 'blob_lead0_3')      # non-minimal re-encoding of the k-th inner field of a key / signature blob
 LEN_OPS = ('len_dec', 'len_inc', 'len_zero', 'len_max')          # the uint32 length prefix of a string / mpint field
 NUM_OPS = ('zero', 'one', 'half', 'dec', 'inc', 'max')            # every uint32 of the group exchange request
 
@@ -189,7 +200,7 @@ def kex_edits(fam, thorough):
             elif kind == 'raw':
                 ops = ('to_old', 'trunc', 'append')          # the numeric edits come from gex_request_specs()
             else:
-                ops = (STR_OPS if thorough else ('flip0', 'fliplast', 'trunc')) + LEN_OPS
+                ops = (STR_OPS if thorough else ('flip0', 'fliplast', 'trunc')) + LEN_OPS + BLOB_OPS
             out += [['kex', side, idx, j, op] for op in ops]
             if (fam, side, idx, j) in HOSTKEY_FIELDS:
                 out.append(['kex', side, idx, j, 'other_key'])
@@ -381,6 +392,17 @@ def make_edit(spec, fam, alg):
                     new = W.sstr(s_ + b'\0')
                 elif op == 'empty':
                     new = W.sstr(b'') if s_ else None
+                elif op.startswith('blob_lead0_'):
+                    k = int(op[11:])
+                    try:
+                        rd, inner = W.Rd(s_), []
+                        while not rd.end():
+                            inner.append(rd.string())
+                    except W.Short:
+                        inner = []
+                    if k < len(inner) and inner[k] and inner[k][0] < 0x80:
+                        inner[k] = b'\0' + inner[k]       # same integer, non-minimal mpint
+                        new = W.sstr(b''.join(W.sstr(x) for x in inner))
                 elif op == 'other_key':
                     new = W.sstr(key('ecdsa-sha2-nistp384').public_data)
             if new is None:
@@ -408,7 +430,10 @@ def expected_negotiation(m, aead):
     sl = sent_lists(m)
     if not sl['c'] or not sl['s']:
         return None
-    c, s = sl['c']['lists'], sl['s']['lists']
+    return expected_from_lists(sl['c']['lists'], sl['s']['lists'], aead)
+
+
+def expected_from_lists(c, s, aead):
     r = {}
     for name, k in (('kex', 0), ('hostkey', 1), ('enc_cs', 2), ('enc_sc', 3), ('cmp_cs', 6), ('cmp_sc', 7)):
         r[name] = W.first_match(c[k], s[k])
@@ -628,6 +653,8 @@ def stage_sweep(ctx, rec, aead):
             gex_old = spec[0] == 'gex_old'
             force = (fam == 'gex' and spec[0] == 'kex' and spec[1:4] == ['c', 0, 0] and
                      (thorough or kex == [k for k in methods if W.family_of(k) == 'gex'][0]))
+            # non-canonical re-encodings (same value, other bytes): what was hashed must be what was received
+            force = force or (spec[0] == 'kex' and str(spec[4]).startswith(('blob_lead0', 'lead0')))
             rec.gex_old = old_form
             try:
                 r = sshutil.run(W.run_session(cfg, None if gex_old else make_edit(spec, fam, kex.encode()), rec), timeout=120)
@@ -648,11 +675,11 @@ def stage_sweep(ctx, rec, aead):
             exact = (not gex_old) and is_exact(fam, spec)
             same = W.bound_part(vc) == W.bound_part(vs)
             ctx.note_case(('sweep', kex, tuple(map(str, spec))), nontrivial=True)
-            if (force or len(sweep_cases) < (4000 if thorough else 340)) and (exact or completed):
+            if (force or len(sweep_cases) < (4000 if thorough else 290)) and (exact or completed):
                 sweep_cases.append('(%s, %s, %s, %s)' % (coq_view(vc, 'c'), coq_diffs(vc, vs), cbool(completed), cbool(exact)))
                 sweep_meta.append((kex, spec, completed, same))
             # the bytes each side really hashed, under the edit
-            if force or (len(hcases) < (2500 if thorough else 190) and (spec[0] != 'byte' or completed)
+            if force or (len(hcases) < (2500 if thorough else 140) and (spec[0] != 'byte' or completed)
                          and (thorough or spec[0] != 'kexinit' or rng.random() < 0.3)):
                 for who, v in (('c', vc), ('s', vs)):
                     if force and who == 'c' and not thorough and len(hcases) % 4:
@@ -946,6 +973,137 @@ def stage_minissh(ctx):
                           '(trusted) host key', {'kind': 'forged_signature'})
 
 
+async def asym_session(role, mk, ak):
+    """MiniSSH in `role` with per-direction lists mk against asyncssh with (symmetric) lists ak.
+    -> dict(ok, info (asyncssh's six names), ic, is, mini_neg, error)"""
+    import asyncio
+    import asyncssh
+    from .. import minissh as M
+    from .. import minissh_selftest as T
+    out = {'ok': False, 'info': None, 'ic': None, 'is': None, 'error': None, 'mini': None}
+    kw = dict(kex_algs=ak['kex'], encryption_algs=ak['enc'], mac_algs=ak['mac'], compression_algs=ak['cmp'])
+    common = dict(kex_algs=mk['kex'], hostkey_algs=[b'ssh-ed25519'], enc_algs=mk['enc_cs'], mac_algs=mk['mac_cs'],
+                  comp_algs=tuple(mk['comp_cs']))
+    if role == 'client':
+        mini = M.MiniSSH('client', host_key=lambda blob: True, **common)
+    else:
+        mini = M.MiniSSH('server', host_key=T.crypto_key(b'ssh-ed25519'), **common)
+    for n in ('enc', 'mac', 'comp'):
+        for d in ('cs', 'sc'):
+            setattr(mini, '%s_algs_%s' % (n, d), list(mk['%s_%s' % (n, d)]))
+    link = T.Link(mini)
+    conn = task = acc = None
+    try:
+        if role == 'client':
+            acc = await asyncssh.listen('mem', 22, tunnel=link, server_factory=T.NoAuthServer,
+                                        server_host_keys=[T.asyncssh_key('ssh-ed25519')], **kw)
+            link.attach(link.server_factory('10.0.0.1', 40000))
+            await link.until(lambda: mini.kex_count == 1, 'key exchange', timeout=20)
+            mini.send(M.client_service_request('ssh-userauth'))
+            await link.expect(M.MSG_SERVICE_ACCEPT, 'SERVICE_ACCEPT')
+            conn = link.conn
+        else:
+            task = asyncio.ensure_future(asyncssh.connect('mem', 22, tunnel=link, known_hosts=None, username='u',
+                                                          client_keys=None, config=None,
+                                                          server_host_key_algs=['ssh-ed25519'], **kw))
+            await link.until(task.done, 'connect()', serve=link.serve, timeout=20)
+            conn = task.result()
+        out['ok'] = True
+        out['info'] = tuple(conn.get_extra_info(k) for k in ('send_cipher', 'send_mac', 'send_compression',
+                                                             'recv_cipher', 'recv_mac', 'recv_compression'))
+    except Exception as e:                   # noqa
+        out['error'] = '%s: %s' % (type(e).__name__, str(e)[:120])
+    finally:
+        ours, theirs = mini.our_kexinit_payload, mini.peer_kexinit_payload
+        out['ic'], out['is'] = (ours, theirs) if role == 'client' else (theirs, ours)
+        out['mini'] = dict(mini.negotiated)
+        c = conn or link.conn
+        if c is not None:
+            c.abort()
+        if task is not None and not task.done():
+            task.cancel()
+        if acc is not None:
+            acc.close()
+        for _ in range(5):
+            await asyncio.sleep(0)
+    return out
+
+
+def stage_asym(ctx, aead):
+    """negotiation against a peer whose KEXINIT has DIFFERENT lists for the two directions in all of cipher, MAC
+    and compression (asyncssh itself always sends the same list twice), both roles"""
+    from .. import minissh as M
+    rng = ctx.rng
+    n = 160 if ctx.tier == 'thorough' else 36
+    kexp = [k for k in M.KEX_ALGS if b'group16' not in k]
+    encp, macp = list(M.DEFAULT_ENC), list(M.DEFAULT_MAC)
+    cmpp = [b'none', b'zlib@openssh.com', b'zlib']
+    cases, meta = [], []
+    okc = failc = differ = 0
+
+    def pick(p, lo=1):
+        return rng.sample(p, rng.randint(lo, len(p)))
+    for i in range(n):
+        role = ('client', 'server')[i % 2]
+        mk = {'kex': pick(kexp, 2)}
+        for nm, pool in (('enc', encp), ('mac', macp), ('comp', cmpp)):
+            mk[nm + '_cs'], mk[nm + '_sc'] = pick(pool), pick(pool)
+        if i % 3 == 0:                        # compression lists that must give different results per direction
+            mk['comp_cs'], mk['comp_sc'] = rng.choice([([b'none'], [b'zlib@openssh.com', b'none']),
+                                                       ([b'zlib@openssh.com', b'none'], [b'none']),
+                                                       ([b'zlib', b'none'], [b'none', b'zlib'])])
+        ak = {'kex': [k.decode() for k in pick(kexp, 2)], 'enc': [e.decode() for e in pick(encp, 3)],
+              'mac': [m_.decode() for m_ in pick(macp, 2)], 'cmp': [c_.decode() for c_ in pick(cmpp, 2)]}
+        desc = {'role': role, 'mini': {k: [x.decode() for x in v] for k, v in mk.items()}, 'asyncssh': ak}
+        rp = {'kind': 'asym', 'cfg': desc}
+        try:
+            o = sshutil.run(asym_session(role, mk, ak), timeout=60)
+        except Exception as e:               # noqa
+            ctx.broke('asym-session', f'{desc}: {e!r}')
+            continue
+        kc, ks = (W.parse_kexinit(o['ic']) if o['ic'] else None), (W.parse_kexinit(o['is']) if o['is'] else None)
+        if not kc or not ks:
+            ctx.broke('asym-session', f'no KEXINIT pair for {desc}: {o["error"]}')
+            continue
+        exp = expected_from_lists(kc['lists'], ks['lists'], aead)
+        exp_ok = all(exp[x] is not None for x in NAMES8)
+        ctx.note_case(('asym', repr(desc)), nontrivial=True)
+        if o['ok']:
+            okc += 1
+            sc, sm, scmp, rc, rm, rcmp = [x.encode() if x is not None else None for x in o['info']]
+            if role == 'server':             # asyncssh is the client
+                got = dict(enc_cs=sc, mac_cs=sm, cmp_cs=scmp, enc_sc=rc, mac_sc=rm, cmp_sc=rcmp)
+            else:
+                got = dict(enc_sc=sc, mac_sc=sm, cmp_sc=scmp, enc_cs=rc, mac_cs=rm, cmp_cs=rcmp)
+            lst = [got.get(x) for x in NAMES8]
+            cases.append('(%s, %s, %s, Some %s)' % (clist(aead, hx), hx(o['ic']), hx(o['is']),
+                                                    clist([lst], lambda g: clist(g, lambda x: copt(x, hx)))))
+            meta.append((desc, lst))
+            differ += any(exp['%s_cs' % a] != exp['%s_sc' % a] for a in ('enc', 'mac', 'cmp'))
+            for x in NAMES8:
+                if got.get(x) is not None and got[x] != exp[x]:
+                    ctx.failing_input(f'asyncssh ({"client" if role == "server" else "server"}) negotiated {x} = {got[x]!r} with a peer '
+                                      f'whose KEXINIT has per-direction lists; the first entry of the client\'s list that the '
+                                      f'server lists is {exp[x]!r}', rp)
+                    break
+        elif exp_ok:
+            ctx.failing_input(f'handshake with the independent peer (per-direction lists, MiniSSH as {role}) failed although '
+                              f'every category has a common algorithm: {o["error"]}; asyncssh and the peer disagree on the '
+                              f'negotiation ({desc["mini"]} vs {ak})', rp)
+        else:
+            failc += 1
+            cases.append('(%s, %s, %s, None)' % (clist(aead, hx), hx(o['ic']), hx(o['is'])))
+            meta.append((desc, None))
+        ctx.count('asym.%s.%s' % (role, 'ok' if o['ok'] else 'failed'))
+    bad = ctx.coq_cases('negotiate_asym', IMPORTS, 'chk_negotiate', cases,
+                        ty='list bytes * bytes * bytes * option (list (list (option bytes)))', shard=20)
+    if bad:
+        ctx.broke('correspondence:negotiate_asym', f'{len(bad)} of {len(cases)} differ; first: {meta[bad[0]]}')
+    ctx.cov['oracle'].update(asym_sessions_ok=okc, asym_sessions_no_common=failc, asym_direction_results_differ=differ)
+    if okc < n // 3 or differ < 4:
+        ctx.broke('vacuity:asym', f'{okc} completed, {differ} with different results for the two directions')
+
+
 async def forging_server():
     import asyncio
     import asyncssh
@@ -997,6 +1155,8 @@ def run(ctx):
         '(a0) the edits of (a) are also run through create_connection(), get_server_host_key(), get_server_auth_methods() '
         'and listen_reverse()/connect_reverse(): no altered handshake may deliver a result to the caller, and a key '
         'returned by get_server_host_key() must be the key the server sent; '
+        '(f) negotiation against the independent peer sending DIFFERENT lists for the two directions (cipher, MAC, '
+        'compression), both roles; '
         '(a) every on-path edit from a generated list is applied in flight to a real asyncssh client <-> server handshake '
         'over an in-memory wire: field-level edits (re-framed, padding recomputed) of both identification lines, both '
         'KEXINITs (cookie; removal / reorder / insertion / emptying of entries of every name-list; flags; strict-kex and '
@@ -1038,6 +1198,8 @@ def run(ctx):
         rec.uninstall()
     stage_minissh(ctx)
     ctx.log('minissh stage done')
+    stage_asym(ctx, aead)
+    ctx.log('per-direction list stage done')
 
 
 def replay(rp):
@@ -1089,6 +1251,21 @@ def replay(rp):
                         c.failing_input(f'{x}: {obs[who][x]!r} != {exp[x] if exp else None!r}', rp)
         elif exp is not None and all(exp[x] is not None for x in NAMES8):
             c.failing_input('failed although a common algorithm exists', rp)
+    elif rp.get('kind') == 'asym':
+        d = rp['cfg']
+        mk = {k: [x.encode() for x in v] for k, v in d['mini'].items()}
+        o = sshutil.run(asym_session(d['role'], mk, d['asyncssh']))
+        kc, ks = W.parse_kexinit(o['ic']), W.parse_kexinit(o['is'])
+        exp = expected_from_lists(kc['lists'], ks['lists'], aead)
+        if o['ok']:
+            sc, sm, scmp, rc, rm, rcmp = [x.encode() for x in o['info']]
+            got = dict(enc_cs=sc, mac_cs=sm, cmp_cs=scmp, enc_sc=rc, mac_sc=rm, cmp_sc=rcmp) if d['role'] == 'server' else \
+                dict(enc_sc=sc, mac_sc=sm, cmp_sc=scmp, enc_cs=rc, mac_cs=rm, cmp_cs=rcmp)
+            for x, v in got.items():
+                if v != exp[x]:
+                    c.failing_input(f'{x}: {v!r} != {exp[x]!r}', rp)
+        elif all(exp[x] is not None for x in NAMES8):
+            c.failing_input('failed although a common algorithm exists: %s' % o['error'], rp)
     elif rp.get('kind') == 'forged_signature':
         if sshutil.run(forging_server()).get('completed'):
             c.failing_input('forged signature accepted', rp)
